@@ -169,26 +169,51 @@ func checkBaseline3C04(c *core.Ctx) {
 				continue
 			}
 			copies, storesRef := false, false
+			loadsRefs, storesParam := false, false
+			// the function itself, or the helpers of the package it calls (one level), do the writing
+			scope := []*ssa.Function{fn}
 			for _, b := range fn.Blocks {
 				for _, in := range b.Instrs {
-					switch x := in.(type) {
-					case *ssa.Call:
-						if bi, ok := x.Common().Value.(*ssa.Builtin); ok && bi.Name() == "copy" {
-							copies = true
+					if call, ok := in.(*ssa.Call); ok {
+						if sc := call.Common().StaticCallee(); sc != nil && sc.Blocks != nil && sc.Pkg == fn.Pkg && sc != fn {
+							scope = append(scope, sc)
 						}
-					case *ssa.Store:
-						if ia, ok := x.Addr.(*ssa.IndexAddr); ok {
-							// the slice loaded from a table's References field
-							if ld, ok := ia.X.(*ssa.UnOp); ok && ld.Op == token.MUL {
-								if fa, ok := ld.X.(*ssa.FieldAddr); ok {
-									if st, ok := derefStructT(fa.X.Type()).Underlying().(*types.Struct); ok && st.Field(fa.Field).Name() == "References" {
-										storesRef = true
+					}
+				}
+			}
+			for _, sf := range scope {
+				for _, b := range sf.Blocks {
+					for _, in := range b.Instrs {
+						switch x := in.(type) {
+						case *ssa.Call:
+							if bi, ok := x.Common().Value.(*ssa.Builtin); ok && bi.Name() == "copy" {
+								copies = true
+							}
+						case *ssa.FieldAddr:
+							if st, ok := derefStructT(x.X.Type()).Underlying().(*types.Struct); ok && st.Field(x.Field).Name() == "References" && sf == fn {
+								loadsRefs = true
+							}
+						case *ssa.Store:
+							if ia, ok := x.Addr.(*ssa.IndexAddr); ok {
+								// the slice loaded from a table's References field
+								if ld, ok := ia.X.(*ssa.UnOp); ok && ld.Op == token.MUL {
+									if fa, ok := ld.X.(*ssa.FieldAddr); ok {
+										if st, ok := derefStructT(fa.X.Type()).Underlying().(*types.Struct); ok && st.Field(fa.Field).Name() == "References" {
+											storesRef = true
+										}
 									}
+								}
+								// … or, in a helper, the slice it was handed by a function that took it from a table
+								if _, isParam := ia.X.(*ssa.Parameter); isParam && sf != fn {
+									storesParam = true
 								}
 							}
 						}
 					}
 				}
+			}
+			if loadsRefs && storesParam {
+				storesRef = true
 			}
 			if takesData && copies {
 				dataW = append(dataW, fn)
